@@ -28,6 +28,7 @@ func main() {
 	fs.StringVar(&cfg.Tier, "tier", envOr("VERIF_TIER", "quick"), "quick or thorough")
 	fs.StringVar(&cfg.Repo, "repo", envOr("VERIF_REPO", "/repo"), "repository root")
 	fs.StringVar(&cfg.Verif, "verif", envOr("VERIF_DIR", "/verif"), "verification directory")
+	fs.StringVar(&cfg.EvDir, "evdir", envOr("VERIF_EVDIR", ""), "evidence directory (default <verif>/evidence)")
 	fs.StringVar(&cfg.Only, "only", "", "run only this harness")
 	fs.IntVar(&cfg.Workers, "workers", 0, "number of workers (default: CPUs)")
 	fs.BoolVar(&cfg.Trace, "trace", false, "trace instructions")
